@@ -1,118 +1,22 @@
-import GoSquare.Proofs.BuildSquare
-import GoSquare.Proofs.BlobAt
-import GoSquare.Proofs.Patched
-import GoSquare.Proofs.SortOrder
+import GoSquare.Proofs.C04Core
+import GoSquare.Proofs.BlobRange
 /-! # C04 — recorded blob share indexes are truthful and satisfy the alignment rule
 
-`Build`/`Construct` return the closed-form square `squareOf` of the kept transactions
-(`build_square`, `construct_square`: refinement of the transliterated builder, proved for every
-transaction list). On that square, for EVERY blob of EVERY kept blob transaction: the index
-recorded in its wrapped pay-for-blob transaction is where the blob's share encoding appears
-verbatim; it is a multiple of the blob's subtree width; blob ranges are pairwise disjoint, written
-in namespace order, ties broken by transaction position then blob position. -/
+The statements live in `Proofs/C04Core.lean` (namespace `GoSquare.C04`: `every_blob_is_placed`,
+`recorded_index_is_truthful`, `ranges_disjoint_and_ordered`, `construct_indexes`) and
+`Proofs/BlobRange.lean` (`blobShareRange_spec`). This module gathers them. -/
 namespace GoSquare.C04
 open GoSquare Builder Spec
 
-/-- element `e` is the `k`-th blob in write order and was placed at share index `idx` -/
-def Placed (thr : Nat) (N : List Bytes) (B : List BlobTx) (k : Nat) (e : Element) (idx : Nat) : Prop :=
-  (sortedElems thr B)[k]? = some e ∧ (placeIdx thr (startOf N B) (sortedElems thr B))[k]? = some idx
-
-/-- every blob of every kept blob transaction is placed somewhere -/
-theorem every_blob_is_placed (thr : Nat) (N : List Bytes) (B : List BlobTx) (p j : Nat) (t : BlobTx) (bl : Blob)
-    (hp : B[p]? = some t) (hj : t.blobs[j]? = some bl) :
-    ∃ k idx, Placed thr N B k (newElement bl p j thr) idx := by
-  have hmem : newElement bl p j thr ∈ sortedElems thr B :=
-    (sortedElems_perm thr B).mem_iff.mpr (allElements_complete thr B p j t bl hp hj)
-  obtain ⟨k, hk, hke⟩ := List.mem_iff_getElem.mp hmem
-  have hk' : k < (placeIdx thr (startOf N B) (sortedElems thr B)).length := by rw [placeIdx_length]; exact hk
-  exact ⟨k, _, by rw [List.getElem?_eq_getElem hk, hke], List.getElem?_eq_getElem hk'⟩
-
-/-- **C04 (truthful, aligned).** For the `k`-th written blob `e` placed at `idx`: the wrapper of its
-    blob transaction (`e.pfbIndex`) — the one marshalled into the square's pay-for-blob shares —
-    keeps the inner transaction and type id, has one index per blob and records `idx` at position
-    `e.blobIndex`; the blob's own share encoding appears verbatim at share index `idx` of the
-    square; `idx` is a multiple of the blob's subtree width. -/
-theorem recorded_index_is_truthful (thr : Nat) (N : List Bytes) (B : List BlobTx) (ss : Nat)
-    (hv : ∀ t ∈ B, ∀ bl ∈ t.blobs, bl.BlobValid)
-    (h1 : (compactSeq txNamespace N).length +
-        (compactSeq payForBlobNamespace ((patched thr N B).map (·.marshal))).length ≤
-        firstIdx thr (startOf N B) (sortedElems thr B))
-    (k : Nat) (e : Element) (idx : Nat) (hpl : Placed thr N B k e idx) :
-    (∃ iw t, (patched thr N B)[e.pfbIndex]? = some iw ∧ B[e.pfbIndex]? = some t ∧ iw.tx = t.tx ∧
-      iw.typeId = indexWrapperTypeId ∧ iw.shareIndexes.length = t.blobs.length ∧
-      iw.shareIndexes[e.blobIndex]? = some (u32 idx)) ∧
-    ((squareOf thr N B ss).drop idx).take e.numShares = sparseSeq e.blob ∧
-    e.numShares = (sparseSeq e.blob).length ∧
-    idx % subTreeWidth e.numShares thr = 0 := by
-  obtain ⟨he, hi⟩ := hpl
-  obtain ⟨hk, hke⟩ := List.getElem?_eq_some_iff.mp he
-  obtain ⟨hk', hki⟩ := List.getElem?_eq_some_iff.mp hi
-  refine ⟨patched_records thr N B k e idx he hi, ?_, ?_, ?_⟩
-  · have := squareOf_blob_at thr N B ss hv h1 k hk
-    rw [hke, hki] at this
-    exact this
-  · have := eok_sortedElems thr B hv e (by rw [← hke]; exact List.getElem_mem hk)
-    exact this.2
-  · have := placeIdx_aligned' thr (sortedElems thr B) (startOf N B) k hk
-    rw [hke, hki] at this
-    exact this
-
-/-- **C04 (disjoint, ordered).** Blobs written earlier end before blobs written later begin; the
-    write order is the namespace order, and among equal namespaces the order of (transaction
-    position, blob position). -/
-theorem ranges_disjoint_and_ordered (thr : Nat) (N : List Bytes) (B : List BlobTx)
-    (k1 k2 : Nat) (e1 e2 : Element) (i1 i2 : Nat) (hlt : k1 < k2)
-    (h1 : Placed thr N B k1 e1 i1) (h2 : Placed thr N B k2 e2 i2) :
-    i1 + e1.numShares ≤ i2 ∧ cmpBytes e1.blob.ns e2.blob.ns ≤ 0 ∧
-    (e1.blob.ns = e2.blob.ns →
-      (e1.pfbIndex < e2.pfbIndex ∨ (e1.pfbIndex = e2.pfbIndex ∧ e1.blobIndex < e2.blobIndex))) := by
-  obtain ⟨he1, hi1⟩ := h1
-  obtain ⟨he2, hi2⟩ := h2
-  obtain ⟨hk1, hke1⟩ := List.getElem?_eq_some_iff.mp he1
-  obtain ⟨hk2, hke2⟩ := List.getElem?_eq_some_iff.mp he2
-  obtain ⟨hk1', hki1⟩ := List.getElem?_eq_some_iff.mp hi1
-  obtain ⟨hk2', hki2⟩ := List.getElem?_eq_some_iff.mp hi2
-  refine ⟨?_, ?_, ?_⟩
-  · have := placeIdx_ordered thr (sortedElems thr B) (startOf N B) k1 k2 hlt hk2
-    rw [hke1, hki1, hki2] at this
-    exact this
-  · have := List.pairwise_iff_getElem.mp (sortedElems_sorted thr B) k1 k2 hk1 hk2 hlt
-    rw [hke1, hke2] at this
-    exact this
-  · have := List.pairwise_iff_getElem.mp (sortedElems_stable thr B) k1 k2 hk1 hk2 hlt
-    rw [hke1, hke2] at this
-    exact this
-
-/-- **C04 on `Construct`.** Whenever `Construct` returns a square, every blob `j` of every blob
-    transaction `p` (counted among the blob transactions) has a recorded, truthful, aligned index. -/
-theorem construct_indexes (dec : Bytes → Decoded) (hdec : DecValid dec) (txs : List Bytes) (max thr : Nat)
-    (hsz : 478 * (max * max) < 4294967296) (sq : List Bytes) (h : construct dec txs max thr = .ok sq) :
-    ∃ N bl, txs = N ++ bl ∧
-      ∀ (p j : Nat) (raw : Bytes) (b : Blob), bl[p]? = some raw → (decB dec raw).blobs[j]? = some b →
-        ∃ k idx iw, Placed thr N (bl.map (decB dec)) k (newElement b p j thr) idx ∧
-          (patched thr N (bl.map (decB dec)))[p]? = some iw ∧ iw.tx = (decB dec raw).tx ∧
-          iw.shareIndexes[j]? = some (u32 idx) ∧
-          (sq.drop idx).take (sparseSeq b).length = sparseSeq b ∧
-          idx % subTreeWidth (sparseSeq b).length thr = 0 := by
-  obtain ⟨N, bl, e, _, hbl, _, hsq⟩ := construct_square dec hdec txs max thr hsz sq h
-  refine ⟨N, bl, e, ?_⟩
-  intro p j raw b hp hj
-  have hB : (bl.map (decB dec))[p]? = some (decB dec raw) := by rw [List.getElem?_map, hp]; rfl
-  obtain ⟨k, idx, hpl⟩ := every_blob_is_placed thr N (bl.map (decB dec)) p j _ b hB hj
-  rcases hsq with ⟨_, hbe, _⟩ | ⟨_, hsqe, g1, _, _⟩
-  · subst hbe; simp at hp
-  · have hv := decValid_kept dec hdec bl hbl
-    obtain ⟨⟨iw, t, r1, r2, r3, _, _, r6⟩, r7, r8, r9⟩ :=
-      recorded_index_is_truthful thr N (bl.map (decB dec)) _ hv g1 k _ idx hpl
-    simp only [newElement] at r1 r2 r6
-    rw [hB] at r2
-    simp only [Option.some.injEq] at r2
-    subst r2
-    have r8' : (newElement b p j thr).numShares = (sparseSeq b).length := r8
-    have r7' : ((squareOf thr N (bl.map (decB dec)) (blobMinSquareSize (closedEstimate thr N (bl.map (decB dec))))).drop idx).take
-        (newElement b p j thr).numShares = sparseSeq b := r7
-    refine ⟨k, idx, iw, hpl, r1, r3, r6, ?_, ?_⟩
-    · rw [hsqe, ← r8']; exact r7'
-    · rw [← r8']; exact r9
+/-- **C04 (the blob-range query returns exactly that range).** -/
+theorem blobShareRange_returns_the_range (dec : Bytes → Decoded) (hdec : DecValid dec) (txs : List Bytes) (max thr : Nat)
+    (hsz : 478 * (max * max) < 4294967296) (b0 : Builder) (hb0 : Builder.newWithTxs dec max thr txs = .ok b0) :
+    ∃ N bl, txs = N ++ bl ∧ (∀ r ∈ N, dec r = .normal) ∧ (∀ r ∈ bl, dec r = .blobTx (decB dec r)) ∧
+      ∀ (p j : Nat) (raw : Bytes) (blob : Blob), bl[p]? = some raw → (decB dec raw).blobs[j]? = some blob →
+        ∀ (sq : List Bytes) (b1 : Builder), b0.exportSquare = .ok (b1, sq) →
+        ∃ k idx, Placed thr N (bl.map (decB dec)) k (newElement blob p j thr) idx ∧
+          blobShareRange dec txs ((N.length + p : Nat) : Int) ((j : Nat) : Int) max thr =
+            .ok (u32 idx, u32 idx + (sparseSeq blob).length) :=
+  blobShareRange_spec dec hdec txs max thr hsz b0 hb0
 
 end GoSquare.C04
